@@ -50,6 +50,8 @@ func serveErr(v *vrt.Ctx, ctx context.Context, dir, session string, in []byte, c
 	return v.CrashWindow(8, func() { en.Finish(ctx) }), nil
 }
 
+// (The other session's id begins with the first one's and a dot: record names
+// that share a prefix are what a clean-up by pattern would sweep up.)
 // Crash: a session with a saved state is served one more request; the process
 // dies at an arbitrary point while the new state is being saved. A later
 // start finds the complete old or the complete new state, the engine
@@ -65,14 +67,18 @@ func Crash(v *vrt.Ctx) {
 	last := []byte{[]byte("1203")[v.Choice("last-input", 4)]}
 	// the same history in both directories; the reference one never crashes
 	for _, d := range []string{dir, ref} {
-		serve(v, ctx, d, "s2", nil, false)
+		serve(v, ctx, d, "s1.b", nil, false)
 		serve(v, ctx, d, "s1", nil, false)
 		for _, in := range inputs {
 			serve(v, ctx, d, "s1", in, false)
 		}
 	}
-	other, ok := load(ctx, dir, "s2")
-	v.Assume(ok)
+	other, ok := load(ctx, dir, "s1.b")
+	// saves of one session (completed ones, so far) leave the other's record alone
+	v.Assert(ok, "C12/other-sessions-untouched")
+	if !ok {
+		return
+	}
 	old, ok := load(ctx, dir, "s1")
 	v.Assume(ok)
 	serve(v, ctx, ref, "s1", last, false)
@@ -106,7 +112,7 @@ func Crash(v *vrt.Ctx) {
 	after, ok := load(ctx, dir, "s1")
 	v.Assert(ok, "C12/session-continues")
 	v.Assert(after.Moves() >= got.Moves(), "C12/session-continues")
-	other2, ok := load(ctx, dir, "s2")
+	other2, ok := load(ctx, dir, "s1.b")
 	v.Assert(ok, "C12/other-sessions-untouched")
 	v.Assert(c17.Same(v, other, other2), "C12/other-sessions-untouched")
 }
@@ -122,7 +128,7 @@ func Dbg(v *vrt.Ctx) {
 	dir := v.TempDir()
 	store := fsdb.NewFsDb()
 	store.Connect(ctx, dir)
-	cfg := engine.Config{Root: "root", FlagCount: 4, SessionId: "s2", OutputSize: 80}
+	cfg := engine.Config{Root: "root", FlagCount: 4, SessionId: "s1.b", OutputSize: 80}
 	en := engine.NewEngine(cfg, apps.Intro()).WithPersister(persist.NewPersister(store))
 	_, err := en.Exec(ctx, nil)
 	if err != nil {
